@@ -18,7 +18,7 @@
 (* "unk" = the decoder would have to interpret opaque token bytes as a     *)
 (* number: the model makes no prediction there.                            *)
 (***************************************************************************)
-EXTENDS Integers, Sequences, FiniteSets, TLC
+EXTENDS Integers, Sequences, FiniteSets, TLC, SequencesExt
 
 OK  == "ok"
 ERR == "err"
@@ -45,35 +45,39 @@ EncVU(b8) == IF HiZero(b8, 2) /\ b8[1] < 253 THEN <<b8[1]>>
              ELSE <<255>> \o b8
 
 (* ---- buffers ------------------------------------------------------------ *)
-Lit(n, b) == IF n = 0 THEN <<>> ELSE <<[n |-> n, b |-> b, k |-> "", o |-> 0]>>
-Tok(k, n) == <<[n |-> n, b |-> -1, k |-> k, o |-> 0]>>
-FromBytes(bs) == [i \in 1..Len(bs) |-> [n |-> 1, b |-> bs[i], k |-> "", o |-> 0]]
-
-RECURSIVE BLen(_)
-BLen(s) == IF s = <<>> THEN 0 ELSE s[1].n + BLen(Tail(s))
-
+(* (the sequence operators are written as left folds: FoldLeft is evaluated by TLC natively, a recursive
+   definition over Tail(s) costs a copy and a deep interpreter stack per segment) *)
+Seg(n, b, k, o) == [n |-> n, b |-> b, k |-> k, o |-> o]
 Joins(a, c) == a.k = c.k /\ a.b = c.b /\ (a.k = "" \/ c.o = a.o + a.n)
-RECURSIVE Norm(_)
-Norm(s) == IF Len(s) <= 1 THEN s
-           ELSE LET r == Norm(Tail(s)) IN
-                IF Joins(s[1], r[1]) THEN <<[s[1] EXCEPT !.n = s[1].n + r[1].n]>> \o Tail(r)
-                ELSE <<s[1]>> \o r
+Norm(s) == FoldLeft(LAMBDA acc, x : IF x.n = 0 THEN acc
+                                    ELSE IF acc # <<>> /\ Joins(acc[Len(acc)], x)
+                                    THEN [acc EXCEPT ![Len(acc)] = [@ EXCEPT !.n = @ + x.n]]
+                                    ELSE Append(acc, x), <<>>, s)
+Lit(n, b) == IF n = 0 THEN <<>> ELSE <<Seg(n, b, "", 0)>>
+Tok(k, n) == <<Seg(n, -1, k, 0)>>
+FromBytes(bs) == Norm([i \in 1..Len(bs) |-> Seg(1, bs[i], "", 0)])
 
-RECURSIVE Drop(_, _)
-Drop(s, k) == IF k <= 0 \/ s = <<>> THEN s
-              ELSE IF s[1].n <= k THEN Drop(Tail(s), k - s[1].n)
-              ELSE <<[s[1] EXCEPT !.n = s[1].n - k, !.o = IF s[1].k = "" THEN 0 ELSE s[1].o + k]>> \o Tail(s)
-RECURSIVE Take(_, _)
-Take(s, k) == IF k <= 0 \/ s = <<>> THEN <<>>
-              ELSE IF s[1].n <= k THEN <<s[1]>> \o Take(Tail(s), k - s[1].n)
-              ELSE <<[s[1] EXCEPT !.n = k]>>
-Slice(s, from, to) == Take(Drop(s, from), to - from)
+BLen(s) == FoldLeft(LAMBDA acc, x : acc + x.n, 0, s)
 
-RECURSIVE Expand(_)                    \* small slices only (<= 32 bytes)
-Expand(s) == IF s = <<>> THEN <<>> ELSE [i \in 1..s[1].n |-> s[1].b] \o Expand(Tail(s))
+Drop(s, k) == FoldLeft(LAMBDA acc, x : IF acc.r <= 0 THEN [r |-> 0, out |-> Append(acc.out, x)]
+                                       ELSE IF x.n <= acc.r THEN [r |-> acc.r - x.n, out |-> acc.out]
+                                       ELSE [r |-> 0, out |-> Append(acc.out, Seg(x.n - acc.r, x.b, x.k, IF x.k = "" THEN 0 ELSE x.o + acc.r))],
+                       [r |-> k, out |-> <<>>], s).out
+Take(s, k) == FoldLeft(LAMBDA acc, x : IF acc.r <= 0 THEN acc
+                                       ELSE IF x.n <= acc.r THEN [r |-> acc.r - x.n, out |-> Append(acc.out, x)]
+                                       ELSE [r |-> 0, out |-> Append(acc.out, Seg(acc.r, x.b, x.k, x.o))],
+                       [r |-> k, out |-> <<>>], s).out
+(* bytes [from, to) in one pass that only keeps the overlapping segments *)
+Slice(s, from, to) ==
+    FoldLeft(LAMBDA acc, x : LET lo == IF acc.p > from THEN acc.p ELSE from
+                                 hi == IF acc.p + x.n < to THEN acc.p + x.n ELSE to IN
+                             [p |-> acc.p + x.n,
+                              out |-> IF lo < hi THEN Append(acc.out, Seg(hi - lo, x.b, x.k, IF x.k = "" THEN 0 ELSE x.o + (lo - acc.p)))
+                                      ELSE acc.out],
+             [p |-> 0, out |-> <<>>], s).out
 
-RECURSIVE Cat(_)                       \* concatenation of a sequence of buffers
-Cat(ss) == IF ss = <<>> THEN <<>> ELSE ss[1] \o Cat(Tail(ss))
+Expand(s) == FoldLeft(LAMBDA acc, x : acc \o [i \in 1..x.n |-> x.b], <<>>, s)     \* small slices only (<= 32 bytes)
+Cat(ss) == FoldLeft(LAMBDA acc, x : acc \o x, <<>>, ss)                             \* concatenation of a sequence of buffers
 
 IsWholeTok(s) == Len(s) = 1 /\ s[1].k # "" /\ s[1].o = 0
 IsLiteral(s)  == \A i \in 1..Len(s) : s[i].k = ""
